@@ -19,7 +19,7 @@ import (
 
 // RLOp is one index-level operation on a key of the universe.
 type RLOp struct {
-	K   string `json:"k"` // set (Put if absent, Update if present), rm (Remove if present), flush
+	K   string `json:"k"` // set (Put if absent, Update if present), reput (Put even if present), rm (Remove if present), flush
 	Key int    `json:"key,omitempty"`
 }
 
@@ -266,6 +266,35 @@ func runRL(e *c08Env, c RLCase) (st rlStats, v *Violation) {
 		}
 		old, isPresent := present[k]
 		switch op.K {
+		case "reput":
+			// Index.Put of a key that may already be there, which is what two
+			// racing Store.Puts of one new key do ("Only store the new key if
+			// it doesn't exist yet"): the list must stay exactly as it is.
+			blk, _ := e.prim.Put(key, []byte{byte(i)})
+			blk.Size = types.Size(1 + i%200)
+			if err = e.idx.Put(key, blk); err != nil {
+				return st, viol("index-put-error|reput|"+errClass(err), i, "Put(%x): %v", key, err)
+			}
+			if !isPresent {
+				present[k] = blk
+				owner[blk] = k
+			} else if !c.Sparse {
+				after, err2 := list()
+				if err2 != nil {
+					return st, viol("record-list-unreadable|reput|"+errClass(err2), i, "%v", err2)
+				}
+				if len(after) != len(before) {
+					return st, viol("put-of-present-key-changed-the-list|reput|length", i, "Put(%x) of a present key changed the number of entries from %d to %d", key, len(before), len(after))
+				}
+				for j := range before {
+					if !bytes.Equal(before[j].key, after[j].key) || before[j].loc != after[j].loc {
+						return st, viol("put-of-present-key-changed-the-list|reput|entry", i, "Put(%x) of a present key turned entry %x@%v into %x@%v", key, before[j].key, before[j].loc, after[j].key, after[j].loc)
+					}
+				}
+			}
+			if v := check(i, "reput"); v != nil {
+				return st, v
+			}
 		case "set", "setfault":
 			blk, _ := e.prim.Put(key, []byte{byte(i)})
 			blk.Size = types.Size(1 + i%200)
@@ -459,7 +488,7 @@ func genRL(t *rapid.T) RLCase {
 		c.Tails = append(c.Tails, tail)
 	}
 	c.Ops = rapid.SliceOfN(rapid.Custom(func(t *rapid.T) RLOp {
-		k := []string{"set", "rm", "flush", "evict", "setfault"}[weighted(t, "kind", []int{12, 4, 2, 1, 1})]
+		k := []string{"set", "rm", "flush", "evict", "setfault", "reput"}[weighted(t, "kind", []int{12, 4, 2, 1, 1, 2})]
 		return RLOp{K: k, Key: rapid.IntRange(0, len(c.Tails)-1).Draw(t, "key")}
 	}), 1, 80).Draw(t, "ops")
 	return c
